@@ -17,7 +17,7 @@ import random
 import front
 import genrun
 
-LEAN_MODULE = "PydjinniModel.Props.C11Closed"
+LEAN_MODULE = "PydjinniModel.Props.C11All"
 THEOREMS = [
     "Pydjinni.Front.lexicalLookup_perm",
     "Pydjinni.Front.declRules_congr",
@@ -28,6 +28,8 @@ THEOREMS = [
     "Pydjinni.Front.violationsOrdered_eq_violations_of_closed",
     "Pydjinni.Front.split_invariance",
     "Pydjinni.Front.split_invariance_accepted",
+    "Pydjinni.Front.front_split_invariance",
+    "Pydjinni.Front.front_eq_violationsOrdered",
 ]
 LEVEL = "proof"
 
@@ -151,6 +153,8 @@ def run(ctx):
         ctx.stat("variant_closed" if cl["closed"] else "variant_not_closed:" + vname)
         if cl["closed"] and not cl["same"]:
             ctx.obligation(f"closed-implies-ordered-eq-whole[{pi}:{vname}]", False, "evaluation", "an evaluated instance contradicts violationsOrdered_eq_violations_of_closed")
+    hyps = ctx.driver.batch([{**req, "op": "c11.hyp"} for _, req in res2])
+    ctx.stats["front_split_invariance_hypotheses_hold"] = sum(1 for h in hyps if h.get("holds"))
     ctx.obligation("closed-implies-ordered-eq-whole (evaluated on every variant)", True, "evaluation",
                    f"{ctx.stats.get('variant_closed', 0)} closed variants")
     breaks = []
